@@ -74,8 +74,13 @@ class RZILTransformer(Transformer):
         return_type: ValueType = None,
         code_format: CodeFormat = CodeFormat.READ_STATEMENTS,
         macros: dict[str:Macro] = None,
+        hybrid_tmp_prefix: str = "",
     ):
         self.code_format = code_format
+        # Prefix of the temporary variables which hold the values of hybrids.
+        # All local variables of an instruction and the sub-routines it calls share
+        # one name space. So the temporaries of each sub-routine need their own names.
+        self.hybrid_tmp_prefix = hybrid_tmp_prefix
         # Classes of Pures which should not be initialized in the C code.
         self.inlined_pure_classes = (Number, Sizeof, Cast, Bool)
         self.imm_set_effect_list = list()
@@ -1071,7 +1076,9 @@ class RZILTransformer(Transformer):
         if hybrid.value_type.group & VTGroup.VOID:
             return hybrid
 
-        tmp_x_name = f"h_tmp{self.il_ops_holder.hybrid_op_count}"
+        tmp_x_name = (
+            f"{self.hybrid_tmp_prefix}h_tmp{self.il_ops_holder.hybrid_op_count}"
+        )
         self.il_ops_holder.hybrid_op_count += 1
         if hybrid.seq_order == HybridSeqOrder.EXEC_ONLY:
             # Doesn't return anything. So no LocalVar for the return value has to be initialized.
